@@ -386,6 +386,115 @@ pub fn judge(c: &Case15) -> Vec<(String, String)> {
     out
 }
 
+/// Two different migrations on one instance (MeshPart: BrickColor + MeshId + TextureID, WrapLayer:
+/// CageMeshId + ReferenceMeshId, ...): each must behave as it does alone, whatever the other does.
+#[derive(Clone, Debug, Serialize, Deserialize)]
+pub struct CasePair {
+    pub class: String,
+    pub legacy_a: String,
+    pub legacy_b: String,
+    pub explicit_a: bool,
+    pub explicit_b: bool,
+}
+
+pub fn pair_cases() -> Vec<CasePair> {
+    let mut by_class: BTreeMap<String, Vec<(String, String)>> = BTreeMap::new();
+    for (class, legacy, to) in migrating_pairs() {
+        by_class.entry(class).or_default().push((legacy, to));
+    }
+    let mut out = Vec::new();
+    for (class, v) in by_class {
+        for (i, (la, ta)) in v.iter().enumerate() {
+            for (lb, tb) in v.iter().skip(i + 1) {
+                if ta == tb {
+                    continue;
+                }
+                for explicit_a in [false, true] {
+                    for explicit_b in [false, true] {
+                        out.push(CasePair { class: class.clone(), legacy_a: la.clone(), legacy_b: lb.clone(), explicit_a, explicit_b });
+                    }
+                }
+            }
+        }
+    }
+    out
+}
+
+pub fn judge_pair(c: &CasePair) -> Vec<(String, String)> {
+    let mut out = Vec::new();
+    let mut wants: Vec<(String, String, String)> = Vec::new(); // (legacy, new name, expected rendered)
+    let mut b = InstanceBuilder::new(c.class.as_str()).with_name("subject");
+    for (legacy, explicit) in [(&c.legacy_a, c.explicit_a), (&c.legacy_b, c.explicit_b)] {
+        let (new_name, migration) = match specdb::lookup(&c.class, legacy) {
+            Lookup::Known(k) => match k.ser {
+                Ser::Migrate { to, migration } => (to, migration),
+                _ => return out,
+            },
+            _ => return out,
+        };
+        // a migratable value in the middle of the legal range
+        let vals = legacy_values(&c.class, legacy);
+        let lv = match vals.iter().map(|x| x.1.clone()).find(|v| migration.perform(v).is_ok()) {
+            Some(v) => v,
+            None => return out,
+        };
+        let direct = migration.perform(&lv).unwrap();
+        b = b.with_property(legacy.as_str(), lv);
+        if explicit {
+            let e = explicit_value(&direct);
+            b = b.with_property(new_name.as_str(), e.clone());
+            wants.push((legacy.clone(), new_name, r(&e)));
+        } else {
+            wants.push((legacy.clone(), new_name, r(&direct)));
+        }
+    }
+    let dom = WeakDom::new(InstanceBuilder::new("DataModel").with_child(b));
+    let roots = dom.root().children().to_vec();
+    let mut paths: Vec<(&str, PathResult)> = Vec::new();
+    paths.push(("write-binary", crate::evidence::guarded(|| -> PathResult {
+        let mut buf = Vec::new();
+        rbx_binary::to_writer(&mut buf, &dom, &roots).map_err(|e| format!("encode: {}", e))?;
+        let d2 = rbx_binary::from_reader(buf.as_slice()).map_err(|e| format!("decode: {}", e))?;
+        props_of(&d2)
+    }).unwrap_or_else(|(s, m)| Err(format!("panic at {}: {}", s, m)))));
+    paths.push(("write-xml", crate::evidence::guarded(|| -> PathResult {
+        let mut buf = Vec::new();
+        rbx_xml::to_writer_default(&mut buf, &dom, &roots).map_err(|e| format!("encode: {}", e))?;
+        let d2 = rbx_xml::from_reader_default(buf.as_slice()).map_err(|e| format!("decode: {}", e))?;
+        props_of(&d2)
+    }).unwrap_or_else(|(s, m)| Err(format!("panic at {}: {}", s, m)))));
+    paths.push(("read-binary", crate::evidence::guarded(|| -> PathResult {
+        let mut buf = Vec::new();
+        rbx_binary::Serializer::new().reflection_database(empty_db()).serialize(&mut buf, &dom, &roots).map_err(|e| format!("cannot build legacy file: {}", e))?;
+        let d2 = rbx_binary::from_reader(buf.as_slice()).map_err(|e| format!("decode: {}", e))?;
+        props_of(&d2)
+    }).unwrap_or_else(|(s, m)| Err(format!("panic at {}: {}", s, m)))));
+    paths.push(("read-xml", crate::evidence::guarded(|| -> PathResult {
+        let mut buf = Vec::new();
+        rbx_xml::to_writer(&mut buf, &dom, &roots, rbx_xml::EncodeOptions::new().property_behavior(rbx_xml::EncodePropertyBehavior::NoReflection)).map_err(|e| format!("cannot build legacy file: {}", e))?;
+        let d2 = rbx_xml::from_reader_default(buf.as_slice()).map_err(|e| format!("decode: {}", e))?;
+        props_of(&d2)
+    }).unwrap_or_else(|(s, m)| Err(format!("panic at {}: {}", s, m)))));
+    let shape = format!("{}+{}{}{}", c.legacy_a, c.legacy_b, if c.explicit_a { "+newA" } else { "" }, if c.explicit_b { "+newB" } else { "" });
+    for (path, res) in paths {
+        match res {
+            Err(e) => out.push((format!("migrate-pair|{}|error|{}", path, shape), format!("{}: {} with {}: {}", path, c.class, shape, e.chars().take(200).collect::<String>()))),
+            Ok(props) => {
+                for (legacy, new_name, want) in &wants {
+                    if props.contains_key(legacy) {
+                        out.push((format!("migrate-pair|{}|legacy-name-survives|{}", path, legacy), format!("{}: {} with {}: the legacy name {} is in the decoded DOM", path, c.class, shape, legacy)));
+                    }
+                    match props.get(new_name) {
+                        Some(g) if g == want => {}
+                        other => out.push((format!("migrate-pair|{}|value|{}->{}", path, legacy, new_name), format!("{}: {} carrying {}: {} should be {} but is {:?}", path, c.class, shape, new_name, want, other))),
+                    }
+                }
+            }
+        }
+    }
+    out
+}
+
 pub fn cases() -> Vec<Case15> {
     let mut out = Vec::new();
     for (class, legacy, _) in migrating_pairs() {
@@ -422,7 +531,21 @@ pub fn check(run: &Run) -> Value {
             out.samples.push(serde_json::to_string(c).unwrap());
         }
     });
+    let mut total = total;
+    let pcs = pair_cases();
+    let o = run_cases(&pcs, &|_, c, out| {
+        out.nontrivial += 1;
+        out.executions += 4;
+        let vs = judge_pair(c);
+        out.outcome(if vs.is_empty() { "pair-ok" } else { "pair-violation" });
+        for (k, w) in vs {
+            out.violation(k, w, || serde_json::to_value(c).unwrap());
+        }
+    });
+    let n_pairs = o.cases;
+    total.merge(o);
     total.report(run);
+    println!("C15 two migrations on one instance: {} cases", n_pairs);
     let declared: std::collections::BTreeSet<String> = pairs.iter().map(|p| format!("{}->{}", p.1, p.2)).collect();
     println!("C15 sweep: cases={} path-executions={} class/property pairs={} outcomes={:?}", total.cases, total.executions, pairs.len(), total.outcomes);
     json!({
@@ -441,6 +564,10 @@ pub fn check(run: &Run) -> Value {
 }
 
 pub fn replay(case: &Value) -> Vec<(String, String)> {
+    if case.get("legacy_a").is_some() {
+        let c: CasePair = serde_json::from_value(case.clone()).unwrap_or_else(|e| crate::evidence::machinery_failure(&format!("bad replay: {}", e)));
+        return judge_pair(&c);
+    }
     let c: Case15 = serde_json::from_value(case.clone()).unwrap_or_else(|e| crate::evidence::machinery_failure(&format!("bad replay: {}", e)));
     let a = judge(&c);
     let b = judge(&c);
